@@ -1,6 +1,7 @@
 (* C03 — exact search returns precisely the nearest matching documents. *)
 From Coq Require Import ZArith List Sorting.Permutation.
-From Syz Require Import Search SearchProofs.
+From Coq Require Import Floats Sorting.Sorted.
+From Syz Require Import Quant Search SearchProofs FloatBits SearchFloat DistProofs.
 Import ListNotations.
 Open Scope Z_scope.
 
@@ -35,6 +36,37 @@ Theorem C03_candidates : forall cosine q docs,
   candidates cosine q docs = map (fun d => (sd_id d, distance cosine q (sd_vec d))) (filter sd_ok docs).
 Proof. reflexivity. Qed.
 Print Assumptions C03_candidates.
+
+(* the order hypothesis above, discharged for the values the code compares: on non-negative, non-NaN binary64 values
+   PrimFloat.ltb is the order of the bit patterns (math.Float64bits) *)
+Theorem C03_order_is_bit_order : forall x y : PrimFloat.float, nonneg x -> nonneg y ->
+  PrimFloat.ltb x y = (bits64 x <? bits64 y).
+Proof. exact ltb_bits. Qed.
+Print Assumptions C03_order_is_bit_order.
+
+(* so the K-nearest answer of the model on binary64 distances (the function the correspondence run evaluates) is the
+   K smallest candidates in ascending order, whenever the distances are non-negative and not NaN *)
+Theorem C03_knn_floats : forall K (cands : list hit), Forall (fun h => nonneg (snd h)) cands ->
+  let res := knn PrimFloat.ltb K cands in
+  exists rest,
+    Permutation cands (res ++ rest) /\ StronglySorted le_bits res
+    /\ length res = Nat.min K (length cands)
+    /\ forall y r, In y res -> In r rest -> le_bits y r.
+Proof. exact knn_floats. Qed.
+Print Assumptions C03_knn_floats.
+
+(* Euclidean collections, no hypothesis left: for every query and all documents with finite components the exact
+   K-nearest search returns min(K, m) accepted documents, ascending, none left out closer than one returned *)
+Theorem C03_knn_euclid : forall q K docs,
+  Forall finite_f q -> Forall (fun d => Forall finite_f (sd_vec d)) docs ->
+  let cands := candidates false q docs in
+  let res := search_knn false q K docs in
+  exists rest,
+    Permutation cands (res ++ rest) /\ StronglySorted le_bits res
+    /\ length res = Nat.min K (length cands)
+    /\ forall y r, In y res -> In r rest -> le_bits y r.
+Proof. exact search_knn_euclid. Qed.
+Print Assumptions C03_knn_euclid.
 
 (* non-vacuity: integer keys *)
 Example C03_nonvacuous :
